@@ -50,13 +50,25 @@ ST_E = st.sampled_from([1, 1, 2, 3])
 
 
 @st.composite
-def world_spec(draw, connected=True, prod=False, chainy=False, nunits=(2, 5), keep=7, min_ext=0, orphans=False):
+def world_spec(draw, connected=True, prod=False, chainy=False, nunits=(2, 5), keep=7, min_ext=0, orphans=False, rings=False):
     fams = []
     rat = _rat()
     for dim in DIMS:
         n = draw(_int(*nunits))
         sizes = [draw(rat) for _ in range(n)]
         edges = []
+        if rings and n >= 4 and draw(_int(0, 9)) < 4:
+            # a ring of k units plus spurs hanging off ring members, declared in drawn order
+            k = draw(_int(3, n - 1))
+            for i in range(k):
+                edges.append([(i + 1) % k, i, draw(ST_PFX), draw(ST_BOOL)])
+            for i in range(k, n):
+                edges.append([i, draw(_int(0, k - 1)), draw(ST_PFX), draw(ST_BOOL)])
+            from .convgen import shuffle
+
+            edges = shuffle(draw, edges)
+            fams.append({"dim": dim, "sizes": sizes, "edges": edges})
+            continue
         for i in range(1, n):
             if connected or draw(_int(0, 9)) < keep:
                 parent = i - 1 if (chainy and draw(ST_BOOL)) else draw(_int(0, i - 1))
